@@ -81,6 +81,7 @@ Definition clear_entry (st : list (nat * bool)) (scr : nat) : Prop :=
 
 Section Screen.
 Variable specs : nat -> screen_spec.
+Hypothesis Hcok : setup_cmds_ok specs.
 Variable typed : list (option str).
 Notation st := (lstate sstate).
 Notation code := (screen_code specs).
@@ -107,8 +108,8 @@ Definition accb (chk : sworld -> event -> bool) (t : list event) : Prop :=
 Lemma accb_cons chk e t : accb chk (e :: t) <-> accb chk t /\ chk (SWt t) e = true.
 Proof. unfold accb, SWt. cbn [rev]. apply srun_mon_snoc. Qed.
 
-Definition chkP := chk_C05_shield_gen false.
-Definition chkS := chk_C05_shield_gen true.
+Definition chkP := relax_setup specs (chk_C05_shield_gen false).
+Definition chkS := relax_setup specs (chk_C05_shield_gen true).
 
 (* what holds at every moment, even when the fuel runs out in the middle of an operation *)
 Definition At (t : list event) : Prop :=
@@ -116,7 +117,7 @@ Definition At (t : list event) : Prop :=
   (hqok (Hqt t) = true -> accb chk_C05_input t).
 Definition A s : Prop := At (trace s).
 
-Lemma A_emit e s : A s -> chkP (SW s) e = true ->
+Lemma A_emit_relaxed e s : A s -> chkP (SW s) e = true ->
   (h_ok (HH s) = true -> h_ok (hyp_step (HH s) e) = true -> chkS (SW s) e = true) ->
   chk_C05_below (SW s) e = true ->
   (hqok (HQ s) = true -> hqok (hq_step (HQ s) e) = true -> chk_C05_input (SW s) e = true) -> A (emit e s).
@@ -128,6 +129,14 @@ Proof.
   - apply accb_cons. split; assumption.
   - intros Hh. change (Hqt (e :: trace s)) with (HQ (emit e s)) in Hh. rewrite HQ_emit in Hh.
     pose proof (hq_step_mono _ _ Hh) as Hh0. apply accb_cons. split; [apply A4, Hh0|apply C4; assumption].
+Qed.
+Lemma A_emit e s : A s -> chk_C05_shield_gen false (SW s) e = true ->
+  (h_ok (HH s) = true -> h_ok (hyp_step (HH s) e) = true -> chk_C05_shield_gen true (SW s) e = true) ->
+  chk_C05_below (SW s) e = true ->
+  (hqok (HQ s) = true -> hqok (hq_step (HQ s) e) = true -> chk_C05_input (SW s) e = true) -> A (emit e s).
+Proof.
+  intros HA C1 C2 C3 C4. apply A_emit_relaxed; [exact HA|apply relax_setup_of, C1| |exact C3|exact C4].
+  intros H1 H2. apply relax_setup_of, C2; assumption.
 Qed.
 
 Lemma A_emit_loop e s : is_user e = false -> A s -> A (emit e s).
@@ -862,7 +871,7 @@ Qed.
 
 (* events that concern neither the stack nor the frames *)
 Definition inert2 (tag : nat) : bool :=
-  inert_tag tag && negb ((tag =? T_SETUP)%nat || (tag =? T_REFRESH)%nat || (tag =? T_SHOW)%nat).
+  inert_tag tag && negb ((tag =? T_SETUP)%nat || (tag =? T_REFRESH)%nat || (tag =? T_SHOW)%nat || (tag =? T_SETUP_BEGIN)%nat).
 Lemma chk_inert2 b w tag a t : inert2 tag = true -> chk_C05_shield_gen b w (EUser tag a t) = true.
 Proof.
   unfold inert2, inert_tag. intros H. apply andb_true_iff in H. destruct H as [H1 H2].
@@ -1066,7 +1075,8 @@ End Progs.
 
 (* ================================================================ the stack operations *)
 Definition plain_tag (tag : nat) : bool :=
-  negb ((tag =? T_SETUP)%nat || (tag =? T_REFRESH)%nat || (tag =? T_SHOW)%nat || (tag =? T_MODAL_RETURN)%nat).
+  negb ((tag =? T_SETUP)%nat || (tag =? T_REFRESH)%nat || (tag =? T_SHOW)%nat || (tag =? T_SETUP_BEGIN)%nat ||
+        (tag =? T_MODAL_RETURN)%nat).
 Lemma chk_plain b w tag a t : plain_tag tag = true -> chk_C05_shield_gen b w (EUser tag a t) = true.
 Proof.
   unfold plain_tag. intros H. apply negb_true_iff in H. apply orb_false_iff in H. destruct H as [H1 H2].
@@ -1523,8 +1533,8 @@ Lemma A_modal_return s5 id sc f' rest : A s5 -> sw_modal (SW s5) = f' :: rest ->
   (h_ok (HH s5) = true -> mf_closed f' = true) -> A (emit (EUser T_MODAL_RETURN [id; sc] []) s5).
 Proof.
   intros HA M O C. apply A_emit; [exact HA| | |reflexivity|intros _ _; reflexivity].
-  - unfold chkP. cbn. rewrite M. cbn [find]. rewrite O, Nat.eqb_refl. apply orb_true_r.
-  - intros Hok _. unfold chkS. cbn. rewrite M. cbn [find]. rewrite O, Nat.eqb_refl. rewrite (C Hok). reflexivity.
+  - cbn. rewrite M. cbn [find]. rewrite O, Nat.eqb_refl. apply orb_true_r.
+  - intros Hok _. cbn. rewrite M. cbn [find]. rewrite O, Nat.eqb_refl. rewrite (C Hok). reflexivity.
 Qed.
 
 Lemma Inv_modal_return s5 s' id sc f' rest :
@@ -1581,6 +1591,39 @@ Proof.
     + apply chk_below_not_stack. destruct HT as [->|[->| ->]]; reflexivity.
     + intros _ _. apply chk_input_other. destruct HT as [->|[->| ->]]; reflexivity.
   - rewrite HQ_emit. destruct HT as [->|[->| ->]]; reflexivity.
+Qed.
+
+(* the entry of a setup() with commands: the top entry *)
+Lemma Keep_begin_event s a t d r : Inv s -> st_stack (ust s) = d :: r -> nth0 a 0 = sd_id d ->
+  Keep s (emit (EUser T_SETUP_BEGIN a t) s).
+Proof.
+  intros [[B1 _ _ _ _ _ _ _] _] U0 N.
+  assert (C : forall b, chk_C05_shield_gen b (SW s) (EUser T_SETUP_BEGIN a t) = true).
+  { intros b. change (chk_C05_shield_gen b (SW s) (EUser T_SETUP_BEGIN a t)) with (negb (shielded (SW s) (nth0 a 0))).
+    rewrite N. rewrite (shielded_top (SW s) (e_of d) (map e_of r) (sd_id d)); [reflexivity| |reflexivity].
+    rewrite B1, U0. reflexivity. }
+  split; [| | |reflexivity|reflexivity|reflexivity|reflexivity| |reflexivity].
+  - rewrite SW_emit. apply step_inert_vsame. reflexivity.
+  - rewrite HH_emit. reflexivity.
+  - intros HA. apply A_emit; [exact HA|apply C|intros _ _; apply C| |].
+    + apply chk_below_not_stack. reflexivity.
+    + intros _ _. apply chk_input_other. reflexivity.
+  - rewrite HQ_emit. reflexivity.
+Qed.
+(* the return of a setup() with commands, and the refresh() of a screen with such a setup(): not checked *)
+Lemma Keep_exempt_event s tag a t : tag = T_SETUP \/ tag = T_REFRESH -> has_cmds (specs (nth0 a 1)) = true ->
+  Keep s (emit (EUser tag a t) s).
+Proof.
+  intros HT HC.
+  assert (C : forall chk, relax_setup specs chk (SW s) (EUser tag a t) = true).
+  { intros chk. cbn [relax_setup]. rewrite HC. destruct HT as [->| ->]; reflexivity. }
+  split; [| | |reflexivity|reflexivity|reflexivity|reflexivity| |reflexivity].
+  - rewrite SW_emit. apply step_inert_vsame. destruct HT as [->| ->]; reflexivity.
+  - rewrite HH_emit. reflexivity.
+  - intros HA. apply A_emit_relaxed; [exact HA|apply C|intros _ _; apply C| |].
+    + apply chk_below_not_stack. destruct HT as [->| ->]; reflexivity.
+    + intros _ _. apply chk_input_other. destruct HT as [->| ->]; reflexivity.
+  - rewrite HQ_emit. destruct HT as [->| ->]; reflexivity.
 Qed.
 
 Section scmd_ind2.
@@ -1810,10 +1853,10 @@ Lemma std_run_cmds s self cnt l : Inv s -> std n s (run_cmds specs self cnt l).
 Proof. intros HI. unfold run_cmds. apply (std_do_scmds n L); [intros; apply std_close_screen; assumption|exact HI]. Qed.
 
 (* ---- the callbacks that concern the top entry ---- *)
-Lemma run_call_setup s d r : Inv s -> st_stack (ust s) = d :: r ->
-  run n s (call_setup specs d) (fun o s' => o = ONormal /\ Keep s s').
+Lemma run_call_setup_plain s d r : Inv s -> st_stack (ust s) = d :: r ->
+  run n s (call_setup_plain specs d) (fun o s' => o = ONormal /\ Keep s s').
 Proof.
-  intros HI U0. unfold call_setup. apply run_rd. cbv beta zeta.
+  intros HI U0. unfold call_setup_plain. apply run_rd. cbv beta zeta.
   apply run_wr_seq. set (s1 := s <| ust := _ |>).
   assert (K1 : Keep s s1) by (apply Keep_wr; reflexivity).
   assert (U1 : st_stack (ust s1) = d :: r) by exact U0.
@@ -1829,6 +1872,44 @@ Proof.
     apply run_wr. split; [reflexivity|]. eapply Keep_trans; [exact K4|apply Keep_wr; reflexivity].
   - apply run_seq. apply run_ret. apply run_wr. split; [reflexivity|].
     eapply Keep_trans; [exact K02|apply Keep_wr; reflexivity].
+Qed.
+
+(* a setup() with commands: entered for the top entry; its commands are a callback like refresh()'s (not in a try
+   block); it reports success ([setup_cmds_ok]); the stack is whatever the commands left *)
+Definition SetupPost (d : sdata) s (o : outcome) s' : Prop :=
+  (o = ONormal /\ Keep s s') \/
+  (Post s o s' /\ has_cmds (specs (sd_scr d)) = true /\ (o = ONormal -> st_rb (ust s') = true)).
+
+Lemma run_call_setup s d r : Inv s -> st_stack (ust s) = d :: r ->
+  run n s (call_setup specs d) (SetupPost d s).
+Proof.
+  intros HI U0. unfold call_setup. destruct (sc_setup_cmds (specs (sd_scr d))) as [|c0 cs] eqn:EC.
+  { eapply run_conseq; [eapply run_call_setup_plain; eauto|]. intros o s' H. left. exact H. }
+  assert (HC : has_cmds (specs (sd_scr d)) = true) by (unfold has_cmds; rewrite EC; reflexivity).
+  unfold call_setup_cmds. apply run_rd. cbv beta zeta. rewrite (Hcok (sd_scr d) _ HC). cbv iota.
+  apply run_wr_seq. set (s1 := s <| ust := _ |>).
+  assert (K1 : Keep s s1) by (apply Keep_wr; reflexivity).
+  assert (U1 : st_stack (ust s1) = d :: r) by exact U0.
+  pose proof (Keep_begin_event s1 [sd_id d; sd_scr d; sd_args d] [] d r (Keep_inv _ _ _ K1 HI) U1 eq_refl) as K2.
+  apply run_seq. unfold ev. apply run_emit; [exact (k_A _ _ K2)|]. cbn [user_event].
+  set (s2 := emit _ s1) in *. assert (K02 : Keep s s2) by (eapply Keep_trans; eauto). clearbody s2. clear K2 K1 U1. clearbody s1.
+  pose proof (Keep_inv _ _ _ K02 HI) as I2. pose proof (Keep_rel _ _ K02) as R02.
+  apply run_seq_std; [apply std_run_cmds, I2| |].
+  - intros s3 I3 R3.
+    pose proof (Keep_exempt_event s3 T_SETUP [sd_id d; sd_scr d; sd_args d; b2n true] [] (or_introl eq_refl) HC) as K3.
+    apply run_seq. unfold ev. apply run_emit; [exact (k_A _ _ K3)|]. cbn [user_event].
+    set (s4 := emit _ s3) in *. clearbody s4.
+    apply run_seq. apply run_wr_seq. set (s5 := s4 <| ust := _ |>).
+    assert (K5 : Keep s3 s5) by (eapply Keep_trans; [exact K3|apply Keep_wr; reflexivity]). clearbody s5.
+    apply run_regsource. set (s6 := emit _ _).
+    assert (K6 : Keep s3 s6) by (eapply Keep_trans; [exact K5|apply Keep_regsource]). clearbody s6.
+    apply run_wr. right. split; [|split; [exact HC|intros _; reflexivity]].
+    assert (K7 : Keep s3 (s6 <| ust := (ust s6) <| st_rb := true |> |>))
+      by (eapply Keep_trans; [exact K6|apply Keep_wr; reflexivity]).
+    split; [eapply Keep_inv; [exact K7|exact I3]|].
+    eapply Rel_trans_l; [exact R02|]. eapply Rel_trans_l; [exact R3|apply Keep_rel, K7].
+  - intros o s3 NO I3 R3. right. split; [|split; [exact HC|intros E; congruence]].
+    split; [exact I3|eapply Rel_trans_l; [exact R02|exact R3]].
 Qed.
 
 Lemma std_call_refresh s d r : Inv s -> st_stack (ust s) = d :: r -> std n s (call_refresh specs d).
@@ -2095,17 +2176,42 @@ Proof.
     apply std_keep; [eapply Keep_trans; eauto|exact HI].
 Qed.
 
+(* refresh() of a screen whose setup() runs commands: the entry need not be the top of the stack *)
+Lemma std_call_refresh_cmds s d : Inv s -> has_cmds (specs (sd_scr d)) = true -> std n s (call_refresh specs d).
+Proof.
+  intros HI HC. unfold call_refresh. apply run_rd. cbv beta zeta.
+  apply run_wr_seq. set (s1 := s <| ust := _ |>).
+  assert (K1 : Keep s s1) by (apply Keep_wr; reflexivity).
+  pose proof (Keep_exempt_event s1 T_REFRESH [sd_id d; sd_scr d; sd_args d] [] (or_intror eq_refl) HC) as K2.
+  apply run_seq. unfold ev. apply run_emit; [exact (k_A _ _ K2)|]. cbn [user_event].
+  set (s2 := emit _ s1) in *. assert (K02 : Keep s s2) by (eapply Keep_trans; eauto). clearbody s2.
+  apply (run_std_post s s2); [apply Keep_rel, K02|]. apply std_run_cmds. eapply Keep_inv; eauto.
+Qed.
+
 Lemma std_process_screen s : Inv s -> std n s (process_screen specs).
 Proof.
   intros HI. unfold process_screen, with_top. apply std_rd. cbv beta zeta.
   destruct (st_stack (ust s)) as [|top r] eqn:U0; [sstep L|].
   (* first part: ready or setup; the stack is left alone *)
   assert (P1 : run n s (rd (fun u => if ss_ready (scr_of u (sd_scr top)) then wr (fun u0 => u0 <| st_rb := true |>) else call_setup specs top))
-                   (fun o s' => o = ONormal /\ Keep s s')).
+                   (SetupPost top s)).
   { apply run_rd. cbv beta. destruct (ss_ready (scr_of (ust s) (sd_scr top))).
-    - apply run_wr. split; [reflexivity|apply Keep_wr; reflexivity].
+    - apply run_wr. left. split; [reflexivity|apply Keep_wr; reflexivity].
     - eapply run_call_setup; eauto. }
-  apply run_seq. eapply run_conseq; [exact P1|]. intros o s1 [-> K1].
+  apply run_seq. eapply run_conseq; [exact P1|]. intros o s1 [[-> K1]|([I1 R1] & HC & RB)].
+  2:{ (* a setup() with commands returned: it succeeded; the stack is whatever it left *)
+    clear P1. destruct o; try (split; assumption). cbn [bal] in R1.
+    apply run_rd. cbv beta. rewrite (RB eq_refl). cbn [negb].
+    apply run_seq. apply run_regsource. set (s2 := emit _ _).
+    assert (K2 : Keep s1 s2) by apply Keep_regsource.
+    pose proof (Keep_inv _ _ _ K2 I1) as I2. clearbody s2.
+    apply (run_std_post s s2); [eapply Rel_trans_l; [exact R1|apply Keep_rel, K2]|].
+    apply std_try; [|intros; apply (std_raise n L); assumption].
+    sstep L; [apply std_call_refresh_cmds; assumption|].
+    apply std_rd. cbv beta. destruct (st_stack (ust s0)) as [|top' r'] eqn:U3; [sstep L|].
+    destruct (sd_id top' =? sd_id top)%nat eqn:E; [|sstep L]. apply Nat.eqb_eq in E.
+    sstep L; [eapply std_draw_screen; eauto|].
+    repeat first [apply (std_get_input n L); assumption|sstep L]. }
   pose proof (Keep_inv _ _ _ K1 HI) as I1. pose proof (Keep_rel _ _ K1) as R1.
   assert (U1 : st_stack (ust s1) = top :: r) by (rewrite (k_u1 _ _ K1); exact U0).
   clear P1. apply run_rd. cbv beta. destruct (negb (st_rb (ust s1))).
@@ -2208,25 +2314,41 @@ Qed.
 End Screen.
 
 (* ================================================================ the theorems *)
-Theorem C05_input_session specs specl typed quit run_empty fuel acts :
+Theorem C05_input_session_cmds specs (Hcok : setup_cmds_ok specs) specl typed quit run_empty fuel acts :
+  let t := rev (trace (snd (app_run_all specs specl typed quit run_empty fuel acts))) in
+  sok (relax_setup specs chk_C05_shield_partial) typed t = true /\
+  (no_f13 t = true -> sok (relax_setup specs chk_C05_shield) typed t = true) /\
+  sok chk_C05_below typed t = true /\
+  (no_stale_prompt t = true -> no_orphan_prompt t = true -> no_modal_during_prompt t = true ->
+   sok chk_C05_input typed t = true).
+Proof.
+  intros t. destruct (app_run_all_ok specs Hcok typed specl typed quit run_empty fuel acts) as (A1 & A2 & A3 & A4).
+  split; [apply sok_iff; exact A1|]. split; [intros H; apply sok_iff, A2, H|]. split; [apply sok_iff; exact A3|].
+  intros H1 H2 H3. apply sok_iff, A4. unfold Hqt. fold t. rewrite hqok_split, H1, H2, H3. reflexivity.
+Qed.
+
+Theorem C05_input_session specs (Hplain : plain_setup specs) specl typed quit run_empty fuel acts :
   let t := rev (trace (snd (app_run_all specs specl typed quit run_empty fuel acts))) in
   sok chk_C05_shield_partial typed t = true /\ (no_f13 t = true -> sok chk_C05_shield typed t = true) /\
   sok chk_C05_below typed t = true /\
   (no_stale_prompt t = true -> no_orphan_prompt t = true -> no_modal_during_prompt t = true ->
    sok chk_C05_input typed t = true).
 Proof.
-  intros t. destruct (app_run_all_ok specs typed specl typed quit run_empty fuel acts) as (A1 & A2 & A3 & A4).
-  split; [apply sok_iff; exact A1|]. split; [intros H; apply sok_iff, A2, H|]. split; [apply sok_iff; exact A3|].
-  intros H1 H2 H3. apply sok_iff, A4. unfold Hqt. fold t. rewrite hqok_split, H1, H2, H3. reflexivity.
+  intros t.
+  destruct (C05_input_session_cmds specs (plain_setup_cmds_ok specs Hplain) specl typed quit run_empty fuel acts) as (H1 & H2 & H3 & H4).
+  fold t in H1, H2, H3, H4.
+  rewrite (sok_ext _ _ typed t (relax_setup_plain specs chk_C05_shield_partial Hplain)) in H1.
+  rewrite (sok_ext _ _ typed t (relax_setup_plain specs chk_C05_shield Hplain)) in H2.
+  split; [exact H1|split; [exact H2|split; [exact H3|exact H4]]].
 Qed.
 
 (* the whole acceptor of ScreenMon.v *)
-Theorem C05_full_session specs specl typed quit run_empty fuel acts :
+Theorem C05_full_session specs (Hplain : plain_setup specs) specl typed quit run_empty fuel acts :
   let t := rev (trace (snd (app_run_all specs specl typed quit run_empty fuel acts))) in
   no_stale_prompt t = true -> no_orphan_prompt t = true -> no_modal_during_prompt t = true ->
   sok chk_C05_partial typed t = true /\ (no_f13 t = true -> sok chk_C05 typed t = true).
 Proof.
-  intros t H1 H2 H3. destruct (C05_input_session specs specl typed quit run_empty fuel acts) as (S1 & S2 & _ & S4).
+  intros t H1 H2 H3. destruct (C05_input_session specs Hplain specl typed quit run_empty fuel acts) as (S1 & S2 & _ & S4).
   fold t in S1, S2, S4. specialize (S4 H1 H2 H3). split.
   - unfold chk_C05_partial. rewrite sok_C05_gen_split. fold chk_C05_shield_partial. rewrite S1, S4. reflexivity.
   - intros N. unfold chk_C05. rewrite sok_C05_gen_split. fold chk_C05_shield. rewrite (S2 N), S4. reflexivity.
@@ -2240,14 +2362,14 @@ Definition cx3_specs := [ scr [] [] [(k1, ([SPushModal 1 0], RProcessed))];
                           quiet [SIfCount 1 [SPush 2 0] [SIfCount 2 [SSchedule 2 0] []]] [];
                           {| sc_setup := []; sc_refresh := []; sc_show := [SIfCount 1 [SCloseSig] []]; sc_closed := []; sc_input := [];
                              sc_input_default := ([], Some RProcessed); sc_prompt_none := false; sc_input_required := true;
-                             sc_no_separator := false; sc_skip_check := false; sc_pages := 0; sc_answer0 := AnsNoAttr; sc_custom := [] |} ].
+                             sc_no_separator := false; sc_skip_check := false; sc_pages := 0; sc_answer0 := AnsNoAttr; sc_custom := []; sc_setup_cmds := [] |} ].
 Definition cx3_typed := [Some k1; Some kx].
 Definition cx3 := session cx3_specs cx3_typed start.
 (* cx4: a prompt for a screen that was never drawn, then a modal screen above it *)
 Definition cx4_specs := [ {| sc_setup := []; sc_refresh := [SIfCount 1 [SRedrawSig; SGetUserInput; SPushModal 2 0] []]; sc_show := [];
                              sc_closed := []; sc_input := [(k1, ([SPush 1 0], RDiscarded))];
                              sc_input_default := ([], Some RProcessed); sc_prompt_none := false; sc_input_required := true;
-                             sc_no_separator := false; sc_skip_check := true; sc_pages := 0; sc_answer0 := AnsNoAttr; sc_custom := [] |};
+                             sc_no_separator := false; sc_skip_check := true; sc_pages := 0; sc_answer0 := AnsNoAttr; sc_custom := []; sc_setup_cmds := [] |};
                           scr [] [] []; quiet [] [] ].
 Definition cx4_typed := [Some k1; Some kx].
 Definition cx4 := session cx4_specs cx4_typed start.
@@ -2255,12 +2377,12 @@ Definition cx4 := session cx4_specs cx4_typed start.
 Definition cx5_specs := [ {| sc_setup := []; sc_refresh := []; sc_show := []; sc_closed := [];
                              sc_input := [(k2, ([SPush 1 0], RDiscarded)); ([51%N], ([SPush 1 7], RDiscarded))];
                              sc_input_default := ([], None); sc_prompt_none := true; sc_input_required := true;
-                             sc_no_separator := false; sc_skip_check := false; sc_pages := 0; sc_answer0 := AnsNoAttr; sc_custom := [] |};
+                             sc_no_separator := false; sc_skip_check := false; sc_pages := 0; sc_answer0 := AnsNoAttr; sc_custom := []; sc_setup_cmds := [] |};
                           {| sc_setup := [true; false]; sc_refresh := [];
                              sc_show := [SIfCount 1 [SPushModal 1 0; SPush 0 0] [SIfCount 4 [SReplace 0 0] []]]; sc_closed := [];
                              sc_input := [(k2, ([], RKey [114%N]))];
                              sc_input_default := ([], Some RRedraw); sc_prompt_none := false; sc_input_required := true;
-                             sc_no_separator := false; sc_skip_check := false; sc_pages := 0; sc_answer0 := AnsNoAttr; sc_custom := [] |} ].
+                             sc_no_separator := false; sc_skip_check := false; sc_pages := 0; sc_answer0 := AnsNoAttr; sc_custom := []; sc_setup_cmds := [] |} ].
 Definition cx5_typed := [Some [114%N]; Some [114%N]; Some k2].
 Definition cx5 := session cx5_specs cx5_typed [SACmds [SSchedule 0 0; SPush 1 0]; SARun].
 (* cx6: the only level in which the asking screen is registered is closed while its request is pending *)
@@ -2268,9 +2390,31 @@ Definition cx6_specs := [ scr [] [] [(k1, ([SPush 1 0; SPushModal 2 0; SPushModa
                           scr [] [] [];
                           {| sc_setup := []; sc_refresh := []; sc_show := [SIfCount 1 [SCloseSig] []]; sc_closed := [SSchedRedraw]; sc_input := [];
                              sc_input_default := ([], Some RProcessed); sc_prompt_none := false; sc_input_required := false;
-                             sc_no_separator := false; sc_skip_check := false; sc_pages := 0; sc_answer0 := AnsNoAttr; sc_custom := [] |};
+                             sc_no_separator := false; sc_skip_check := false; sc_pages := 0; sc_answer0 := AnsNoAttr; sc_custom := []; sc_setup_cmds := [] |};
                           quiet [] [] ].
 Definition cx6_typed := [Some k1; Some kx].
 Definition cx6 := session cx6_specs cx6_typed start.
 Definition hyps3 (t : list event) := (no_stale_prompt t, no_orphan_prompt t, no_modal_during_prompt t).
+
+(* ---- setup() with commands of its own ---- *)
+Definition setup_scr (res : list bool) (cmds : list scmd) : screen_spec :=
+  {| sc_setup := res; sc_refresh := []; sc_show := []; sc_closed := []; sc_input := [];
+     sc_input_default := ([], None); sc_prompt_none := false; sc_input_required := true;
+     sc_no_separator := false; sc_skip_check := false; sc_pages := 0; sc_answer0 := AnsNoAttr; sc_custom := [];
+     sc_setup_cmds := cmds |}.
+Definition fspecs (l : list screen_spec) : nat -> screen_spec := fun n => nth n l default_spec.
+(* su1: input() of screen 0 opens the modal screen 1; setup() of screen 1 pushes screen 2 and then reports failure:
+   the scheduler discards the entry of screen 2 (the top) and, the entry it set up being modal, stops its loop:
+   push_screen_modal returns while screen 1 is still on the stack, its frame open *)
+Definition su1_specs := [ scr [] [] [(k1, ([SPushModal 1 0], RProcessed))];
+                          setup_scr [false; true] [SIfCount 1 [SPush 2 0] []];
+                          scr [] [] [] ].
+Definition su1_typed := map Some [k1; kc; kc; kc].
+Definition su1 := session su1_specs su1_typed start.
+(* su2: setup() of screen 0 opens the modal screen 1 (whose refresh() opens the modal screen 2), then pushes screen 2 *)
+Definition su2_specs := [ setup_scr [] [SPushModal 1 0; SPush 2 0];
+                          scr [SIfCount 1 [SPushModal 2 0] []] [] [];
+                          scr [] [] [] ].
+Definition su2_typed := map Some [kc; kc; kc; kc; kc].
+Definition su2 := session su2_specs su2_typed start.
 End C05InEx.
